@@ -1,4 +1,6 @@
 """C20 - the chain-sync client keeps listeners on one consistent chain at the best tip (structural part)."""
+import collections
+import re
 from engine import *
 import provenance
 import guards
@@ -664,3 +666,42 @@ RULES = [
 RULES.append(('20.t', 'identity comparisons: every reviewed (function, identity type) == / != comparison (HTLCSource, Txid, OutPoint, ChannelId, PaymentHash, PublicKey, ...) is still made - a function does not silently change what it matches by (rules/provenance.py)', lambda F: provenance.ids_for_property(F, 'C20', '20.t')))
 RULES.append(('20.M', 'collection mutations: every reviewed (function, stored collection, mutator class: add / remove / filter / empty / swap / order) triple is still present - an entry that is no longer removed, inserted or drained on one path (rules/mutations.py)', lambda F: mutations.for_property(F, 'C20', '20.M')))
 RULES.append(('20.G', 'guard census: no reviewed call of a workspace function and no reviewed mutation of a stored collection gained a controlling branch condition (an added `&& cond`, early return / continue, more specific match arm in front of an act); counts per call site, name free (rules/guards.py)', lambda F: guards.for_property(F, 'C20', '20.G')))
+
+def r20n(F):
+	"""listener adapters forward connections and disconnections to the same members: for every type whose Listen impl forwards
+	filtered_block_connected to inner listeners (the (T, U) pair that drives a ChainMonitor and a ChannelManager from one SpvClient, the
+	ChainListenerSet / DynamicChainListener of the start-up sync, the sweeper wrapper), blocks_disconnected forwards to the same set of
+	receivers - a member that hears about new blocks but not about a reorg is handed the new branch on top of its old tip"""
+	out = []
+	by_type = collections.defaultdict(dict)
+	for n in F.fns:
+		m = re.match(r'^<(.+) as lightning::chain::Listen>::(filtered_block_connected|blocks_disconnected|block_connected)$', n)
+		if m:
+			by_type[m.group(1)][m.group(2)] = n
+	k = 0
+	for ty, ms in sorted(by_type.items()):
+		if 'filtered_block_connected' not in ms or 'blocks_disconnected' not in ms:
+			continue
+		recv = {}
+		for meth in ('filtered_block_connected', 'blocks_disconnected'):
+			rs = set()
+			for fn in [ms[meth]] + list(F.closures_of(ms[meth])):
+				fu = F.func(fn)
+				ex = Expr(fu)
+				for b, ci in fu.calls():
+					t = norm(ci.get('t') or ci.get('f') or '')
+					if t.endswith('Listen::' + meth) and ci['args']:
+						rs.add(re.sub(r'^(deref\()+|\)+$', '', leaf_key(ex.of_operand(ci['args'][0]))))
+			recv[meth] = rs
+		if not recv['filtered_block_connected']:
+			# handles connections itself, or never sees one (DynamicChainListener is used for the disconnection phase of the start-up sync only:
+			# its filtered_block_connected is unreachable!()) - not a forwarding adapter
+			continue
+		k += 1
+		ok = recv['filtered_block_connected'] == recv['blocks_disconnected']
+		out.append(Result('20.n', ok, ('ok:' if ok else 'siblings:') + 'adapter-forwards-both@' + ty[:50], 'Listen for %s: connections are forwarded to %s, disconnections to %s' % (ty[:60], sorted(recv['filtered_block_connected']), sorted(recv['blocks_disconnected'])) + ('' if ok else ' - a member is told about new blocks but not about the reorg that precedes them (or the other way round)'), len(recv['filtered_block_connected']) + len(recv['blocks_disconnected']), where=F.where(ms['blocks_disconnected'])))
+	if k < 3:
+		out.append(Result('20.n', False, 'floor:listen-adapters', 'only %d forwarding Listen impls found (expected the pair, the dyn Deref, the sync sweeper and the block-sync wrappers)' % k, k))
+	return out
+
+RULES.append(('20.n', 'listener adapters (the (T, U) pair, Deref, the block-sync wrappers) forward connections and disconnections to the same set of members (sibling methods cross-checked)', r20n))
